@@ -4,7 +4,7 @@
    Model/ThreadPool.v is an interleaving semantics of src/threadpool.c: a configuration [c]
    gives the number of pool threads [c_n c], the number of loops [c_loops c] and the behaviour
    of every completion callback [c_beh c]; [progs] are the scripts of the loop threads
-   (submissions of CPU / fast-I/O / slow-I/O requests, uv_cancel calls, uv_run calls); a
+   (submissions of CPU / fast-I/O / slow-I/O requests, uv_cancel, uv_run and uv_stop calls); a
    schedule is a list of (thread, aux) choices, aux selecting the waiter a uv_cond_signal wakes
    and aux = 1 forcing a spurious wake-up.  [run c (init c progs) sched] is the state after
    the schedule; its [trace] (newest first) records EWork r t (the work function of r ran on
@@ -202,3 +202,14 @@ Example C08_example :
   In (ECancel 2 0 0%Z) (trace s) /\ In (EDone 2 0 UV_ECANCELED) (trace s).
 Proof. exact run2_terminal. Qed.
 Print Assumptions C08_example.
+
+(* uv_stop called from the first callback of a batch of two completions: both callbacks run
+   in that uv__work_done call (the model's deliver never looks at the stop flag, as the code),
+   and the run ends with nothing owed. *)
+Example C08_example_stop_in_batch :
+  let s := run cfg3 (init cfg3 prog3) sched3 in
+  verdict cfg3 s = 0%Z /\
+  map (fun r => ndone r (trace s)) [0; 1] = [1; 1] /\
+  (forall t, t < 2 -> step cfg3 s t 0 = None).
+Proof. exact run3_stop_in_batch. Qed.
+Print Assumptions C08_example_stop_in_batch.
